@@ -33,6 +33,7 @@ MC_VOps == {"*"}
 MC_Senses == {"<=", "=="}
 MC_Stages == <<>>
 MC_FinalEn == {"Problem"}
+MC_SingValues == {}
 MC_Want == {}
 ASSUME PrintT(<<"BASE", BaseCalls, BaseHeap, AllNames, SliceTab>>)
 ASSUME PrintT(<<"CODE", [k \in DOMAIN MC_Code |-> MC_Code[k]]>>)
